@@ -15,7 +15,7 @@ import types
 
 from . import sym
 from .sym import (SInt, SBool, SBuf, SByte, SRegion, Unsupported, EngineError, is_sym, deep_sym, mk_int, mk_bool,
-                  zint, zbool, z3, And, Or, Not)
+                  zint, zbool, z3, And, Or, Not, Max)
 
 
 _STRUCT_CODES = {
